@@ -141,10 +141,13 @@ MANIFEST_TEXT = {
         note="Trusted: Lean kernel; Spec transcription; executable AES. The parse of the decrypted join-accept (CFList) is tied by correspondence; its round-trip theorem is not yet proved.",
         technique="Lean 4 proof (model = spec, ECB inverse) + differential correspondence"),
     "C05": dict(
-        text="The sender and receiver call sequences are composed from the model functions proved in C01/C02/C03/C07 (LW/Model/Exchange.lean) and executed against the real API step by step; "
+        text="Lean theorem C05_exchange: for ANY data frame (MType 2..5, both directions, both MAC versions, any lawful cipher, keys, registry, 32-bit counter) with MAC commands in FOpts and absent / port-0 command / application FRMPayload, the bytes produced by the sender pipeline "
+             "(encrypt FRMPayload -> encrypt FOpts -> MIC -> marshal) are ACCEPTED by the receiver pipeline (unmarshal -> restore FCnt -> validate -> decrypt/decode FOpts -> decrypt FRMPayload) which ends with exactly the sender's commands, payload, port, address, counter and flags. "
+             "C05_reject_iff_up/_down: for ANY received bytes and ANY receiver parameters the frame is accepted iff it carries the specification MIC for those parameters. C05_frm_recovered. "
+             "The pipelines (LW/Model/Exchange.lean) are executed against the real API step by step; "
              "the spec verdict checks (a) untampered valid frames are accepted with exactly the original commands/payload and (b) a tampered frame is accepted iff the specification MIC over the received bytes under the receiver's parameters matches.",
-        note="Trusted: as C01-C03 and C07. The end-to-end composition theorem (C05_exchange) is stated via its component theorems; the composed statement itself is not yet a single Lean theorem - see level text.",
-        technique="Lean 4 proofs of the components + executable composition compared with the Go pipeline + spec-MIC oracle"),
+        note="Trusted: as C01-C03 and C07. Hypotheses of C05_exchange: the commands are framed consistently with the registry (C07), FOpts at most 15 bytes, application bytes on a port other than 0. That different parameters give a different 4-byte MIC is cryptographic and not claimed.",
+        technique="Lean 4 proof (composition of codec round trip, MIC specification, encryption involutions and command streams) + executable composition compared with the Go pipeline + spec-MIC oracle"),
     "C11": dict(
         text="Lean theorems over ALL 2^24 NetIDs x 2^32 DevAddrs: C11_setPrefix (each of the 32 result bits is the one the addressing rules prescribe: prefix 1^t 0, low w_t bits of the ID field, NwkAddr untouched), "
              "C11_isNetID_iff, C11_prefixed_is_member, C11_netIDType, C11_netIDID; and for every identifier value: C11_text / _text_0x / _binary / _scan round trips, C11_binary_reversed, wrong lengths rejected. "
